@@ -5,7 +5,7 @@ ROOT = os.path.dirname(os.path.dirname(os.path.abspath(__file__)))
 props = [json.loads(l)["id"] for l in open(os.path.join(ROOT, "properties.jsonl"))]
 
 TECH = "Lean 4 theorems over an executable model + differential correspondence (harness vs compiled Lean driver) + constants translator"
-NOTE_COMMON = ("Trusted: Lean kernel; axioms propext/Classical.choice/Quot.sound only; the hand-written model (tied to /repo by the "
+NOTE_COMMON = ("Trusted: Lean kernel (+ leanchecker re-check in the thorough tier); axioms propext/Classical.choice/Quot.sound only; the hand-written model (tied to /repo by the "
                "correspondence stream run on every invocation: exhaustive on small safe-prime groups, sampled with boundary values on the "
                "62-bit and built-in 2048-bit groups, both multiplicative back-ends); harness, driver parser and diff; dependencies modelled by "
                "specification. Primality of the built-in 2048-bit P and Q is a hypothesis (no certificate offline). ")
@@ -14,7 +14,7 @@ CLAIMS = {
  "C01": ("Theorems (all keys, members, randomness, any lawful back-end): decrypt∘encrypt = id, exponential ElGamal, encrypt_and_pok, "
          "homomorphism for reduced and unreduced component products; decode∘encode = id on the whole plaintext space (Nat back-ends). "
          "Model tied to code by the C01 stream (exhaustive (sk,m,r) on p≤47 quick / p≤263 thorough).", "6 C01",
-         "Ristretto only under the Lawful hypothesis and not yet in the stream."),
+         "Ristretto: the generic theorems apply under the single assumption LawfulGrp (curve-group half; exponent ring = ZMod l and primality of l are proved); the R255 part of the stream compares curve25519-dalek with an executable ristretto255 model (differential testing)."),
  "C03": ("Flagship theorem shuffle_complete: for EVERY N >= 1, every permutation of range N, all valid generators/key/ciphertexts, every re-encryption tape, "
          "every proof tape (3N+4... i.e. 4N+4 draws), every label and every hash function, genProof's output is accepted by checkProof (any lawful back-end); "
          "identity / reversal / N=1 corollaries. The prover model is tied to the code field-by-field with injected tapes (all N! permutations N<=4 on small groups, "
@@ -29,12 +29,12 @@ CLAIMS = {
  "C05": ("Theorems: completeness of Schnorr, Chaum-Pedersen, plaintext-knowledge and decryption proofs for every secret, nonce, base, "
          "label/context and every hash function, over any lawful back-end; default/explicit generator interchange. Prover compared "
          "nonce-by-nonce with the model (injected tapes), exhaustively over (x, nonce) on small groups.", "6 C05",
-         "Ristretto only under the Lawful hypothesis and not yet in the stream."),
+         "Ristretto: the generic theorems apply under the single assumption LawfulGrp (curve-group half; exponent ring = ZMod l and primality of l are proved); the R255 part of the stream compares curve25519-dalek with an executable ristretto255 model (differential testing)."),
  "C02": ("Theorems (all N, all lists, any lawful back-end): apply_permutation returns exactly re-encryptions of input perm[k] under exponent rs[perm[k]] "
          "(with the panic cases characterised), re-encryption = product with an encryption of 1, re-encryption preserves decryption, multiset of "
          "decryptions preserved for every permutation, through any cascade of mixers, and through division by any combined (threshold) factor. "
          "Stream: apply_permutation / gen_shuffle with injected exponents vs model, all N! permutations N<=4 on small groups, cascades.", "6 C02",
-         "Ristretto only under the Lawful hypothesis and not yet in the stream."),
+         "Ristretto: the generic theorems apply under the single assumption LawfulGrp (curve-group half; exponent ring = ZMod l and primality of l are proved); the R255 part of the stream compares curve25519-dalek with an executable ristretto255 model (differential testing)."),
  "C06": ("Theorems: each of the four sigma verifiers accepts IFF challenge = hash of the complete statement (bytes layout proved, incl. label and mhr) AND the group equation(s) hold; "
          "free/changed challenge rejected unconditionally; one-equation CP rejected; changed response / commitment / public value rejected; any statement change changes the hashed bytes "
          "(injectivity of the transcript encodings) so double acceptance implies a hash collision; special soundness. Stream: the WHOLE proof space of p=7,11 (Schnorr) and p=7 (CP) against "
@@ -46,7 +46,7 @@ CLAIMS = {
          "Rejection of a wrong factor from a single transcript is computational (ROM), outside any theorem."),
  "C08": ("Theorems (n unbounded): joint key = product of shares in any order; share proofs verify; joint decryption by all n factors (any order) recovers m; "
          "lists position by position (iff); omitting/duplicating a factor yields m iff that share or the randomness is 0 (q prime). Stream: keymaker wrappers vs model, all orders n<=4.", "6 C08",
-         "Ristretto only under the Lawful hypothesis."),
+         "Ristretto: the generic theorems apply under the single assumption LawfulGrp (curve-group half; exponent ring = ZMod l and primality of l are proved); the R255 part of the stream compares curve25519-dalek with an executable ristretto255 model (differential testing)."),
  "C09": ("Theorems: Feldman check holds for ALL thresholds t>=1, receivers and coefficient lists (closed forms of share and verification-key factor); altered share rejected "
          "(q prime, g != 1); closed witness that the pinned machine-integer power fails at receiver 15, t = 17 (defect F2, fixed). Stream: all (t, receiver) up to 24 on small groups.", "6 C09",
          "t = 0 is excluded (the model shows the comparison is false there; the library is never called with t = 0)."),
@@ -62,7 +62,7 @@ CLAIMS = {
          "the set of quadratic residues (Euler's criterion, proved); exp_from_bytes accepts IFF n < q; 0, >= p, p-1, >= q rejected; every composite wire type (14 types incl. shuffle proofs and "
          "all vector wrappers) decodes only if each embedded element/exponent does. Stream: ALL byte strings of length 0..2 as element and exponent on small groups (accepted set = subgroup), "
          "paddings / out-of-range values at 2048 bits, composite objects with one invalid component at every position.", "6 C11",
-         "Ristretto canonicity is not modelled yet."),
+         "Ristretto: canonical-encoding acceptance is decided by the executable RFC 9496 decoder of the model and compared with dalek on rule-generated invalid encodings (no theorem: curve arithmetic is not proved)."),
  "C12": ("Theorems: a codec algebra (LawfulCodec: decode(encode a ++ rest) = (a, rest); extension stability; decoded values valid) proved for every borsh combinator and instantiated for all 18 wire "
          "types of both multiplicative back-ends: round trip, injectivity, trailing bytes rejected, truncation rejected; plus the proved counterexample that deleting an INTERIOR byte cannot be rejected "
          "by a length-prefixed format. Stream: byte-exact encoder, round trip, append/remove bytes for every type; all scalar values on p<=23.", "6 C12",
@@ -74,7 +74,7 @@ CLAIMS = {
          "Allocator behaviour and panics inside dependencies beyond their modelled preconditions are runtime facts (tested by catch_unwind, not proved)."),
  "C14": ("Theorems (SafePrimeGroup): encode succeeds IFF m < q-1, yields a canonical subgroup member, decode inverts it, injective, survives the wire, refusal outside the space is an error; the random-"
          "plaintext range [0,q-2] is inside the space and the pre-fix extra value q-1 is refused (F4 witness). Stream: all m in [0,q+2] on small groups, boundaries at 2048 bits, live rnd_plaintext histogram.", "6 C14",
-         "Ristretto's 30-byte embedding is not modelled yet."),
+         "Ristretto's 30-byte embedding (64x128 candidate search) is modelled executably and compared with the implementation; that the search always succeeds is not a theorem."),
  "C17": ("Theorems (hash uninterpreted): generators(n, seed) has length n, entry i is a function of (seed, i+1) only, prefix-stable, each entry is the first retry round whose candidate is >= 2 with the "
          "growing retry string of the source, and every generator is a non-identity member of the order-q subgroup (Fermat; cofactor*q+1 = p). Stream: generators for 3 seeds x sizes up to 50 vs the model's "
          "own SHA-512 derivation; first generator recomputed from hash_to_element.", "6 C17",
@@ -91,7 +91,7 @@ CLAIMS = {
  "C15": ("Theorems: the multiplicative back-ends satisfy the specification `Lawful` for every safe-prime parameter set (natLawful); "
          "group and exponent-ring laws derived generically; exp_sub_mod; kernel-checked facts p=2q+1, 1<g<p, g^q=1, cofactor on the "
          "constants regenerated from /repo. Every trait method compared with the model (= independent bigint reference) exhaustively on small groups.", "6 C15",
-         "Ristretto laws are a hypothesis; primality of built-in P, Q is a hypothesis."),
+         "Ristretto: only the curve-group half is a hypothesis (exponent ring and l prime proved); primality of the built-in 2048-bit P, Q is a hypothesis; all harness parameter sets incl. the 62-bit one are PROVED safe-prime groups (Pratt certificates)."),
  "C20": ("Theorems: base64 (NO_PAD) round trip, injectivity, canonical decoding (decode s = some bs IFF s = encode bs), rejection of padding / bad characters / impossible lengths; "
          "the 32/32/64-byte key and signature codecs are lawful (round trip, trailing and truncated encodings rejected), string encodings round-trip; abstract Ed25519 over any additive group "
          "with a basepoint of order l: honest signatures satisfy the cofactorless (dalek) and the cofactored (zebra/ZIP-215) equation, cofactorless acceptance implies cofactored acceptance, the "
